@@ -72,6 +72,10 @@ func parseUrlPath(pathStr string, m meta.Definition) ([]*Path, error) {
 			if !isList {
 				return nil, fmt.Errorf("%w. %s is not a list and cannot be selected by key", fc.BadRequestError, ident)
 			}
+			if len(keyStrs) != len(list.KeyMeta()) {
+				// a shorter key would leave nil key values for every node to trip on
+				return nil, fmt.Errorf("%w. %s has %d key(s), %d given", fc.BadRequestError, ident, len(list.KeyMeta()), len(keyStrs))
+			}
 			if seg.Key, err = NewValuesByString(list.KeyMeta(), keyStrs...); err != nil {
 				return nil, err
 			}
